@@ -39,7 +39,7 @@ func (in *Interp) nativeMethod(t types.Type, m *types.Func) *nativeFn {
 			case *types.Chan:
 				return mkType(u.Elem())
 			}
-			panic(targetPanic{fr.i.runtimeError("reflect: Elem of invalid type " + rt.String())})
+			panic(targetPanic{v: fr.i.runtimeError("reflect: Elem of invalid type " + rt.String())})
 		case "Key":
 			return mkType(rt.Underlying().(*types.Map).Key())
 		case "Kind":
@@ -182,7 +182,7 @@ func rvIsNil(v value) bool {
 	case unsafePtr:
 		return x.p == nil
 	}
-	panic(targetPanic{iface{t: types.Typ[types.String], v: "reflect: call of reflect.Value.IsNil on non-nillable Value"}})
+	panic(targetPanic{v: iface{t: types.Typ[types.String], v: "reflect: call of reflect.Value.IsNil on non-nillable Value"}})
 }
 
 func init() {
